@@ -907,6 +907,13 @@ class Evaluator:
     def canon_ctor(self, fn, args, kwargs):
         """Keyword arguments of a repo dataclass constructor are rewritten positionally (field order) when they
         continue the positional prefix, so Foo(a, b) and Foo(x=a, y=b) are one term."""
+        if fn[0] == "name" and not kwargs and len(args) == 1 and args[0][0] == "star" and self.known_items(args[0][1]) is None:
+            # Foo(*pair) for a repo dataclass with n fields: the splat must have exactly n items, so it is Foo(pair[0], …, pair[n-1])
+            r = self.p.lookup(fn[1])
+            if r is not None and r[0] == "class":
+                fields = self.p.dataclass_fields(r[1])
+                if fields:
+                    return tuple(self.index(args[0][1], C(i)) for i in range(len(fields))), kwargs
         if fn[0] != "name" or not kwargs or any(k is None for k, _ in kwargs) or any(a[0] == "star" for a in args):
             return args, kwargs
         r = self.p.lookup(fn[1])
